@@ -38,7 +38,7 @@ func H_C09_runeOffsetMap() {
 // H_C09_runeBoundary (style P): two documents written and read back by the real code; the first is
 // 97..103 runes long and 0..3 of its last runes are two-byte runes, so the 100-rune sampling point
 // falls before, inside or after the multi-byte stretch and the second document starts at an
-// arbitrary phase; a content match in the second document (behind a two-byte rune) must be reported
+// arbitrary phase; a content match in the second document (behind sixteen runes of 2, 3 or 4 bytes) must be reported
 // at the byte offset where the text really is, case-sensitively and case-insensitively.
 func H_C09_runeBoundary() {
 	verifrt.ClockConcrete()
@@ -54,7 +54,14 @@ func H_C09_runeBoundary() {
 			first = append(first, byte('a'+i%7))
 		}
 	}
-	second := []byte("zz é tail Needle here\n")
+	// the match in the second document sits directly behind sixteen runes of a symbolic width (2, 3 or 4
+	// bytes): more than three bytes per rune since the last sampling point in the widest case
+	filler := []string{"é", "€", "😀"}[verifrt.Concretize(verifrt.IntRange("fillerWidth", 0, 2))]
+	second := []byte("z")
+	for i := 0; i < 16; i++ {
+		second = append(second, filler...)
+	}
+	second = append(second, "Needle here\n"...)
 	b, err := NewShardBuilder(verifRepo(9, "rb", "main"))
 	verifrt.Assert(err == nil, "builder")
 	verifrt.Assert(b.Add(Document{Name: "first.txt", Content: first, Branches: []string{"main"}, Language: "Text", Category: FileCategoryDefault}) == nil, "add first")
